@@ -39,6 +39,9 @@ pub struct HistParams {
     /// after every end-of-day the terminal holds the same dangling pre-authorisation again (its
     /// receipt counter restarts): the next clean-up has to reverse that number once more
     pub rearm_dangling: bool,
+    /// transport faults (the fault menu of C09) are explorer deviations at every terminal-to-client
+    /// packet of every exchange after Feig::new, reconnect handshakes included
+    pub faults: bool,
 }
 
 pub struct PolSt {
@@ -52,6 +55,8 @@ pub struct PolSt {
     pub lazy: bool,
     pub p: HistParams,
     pub declined_after_status: u64,
+    /// a fault was injected into an exchange of the current operation
+    pub faulted: bool,
 }
 
 pub struct HistPolicy {
@@ -139,6 +144,13 @@ impl Policy for HistPolicy {
             }
             steps = slow;
         }
+        if st.lazy && st.p.faults {
+            let timeout_ms = if matches!(op, Op::ReadCard) { (base_config().feig_config.read_card_timeout as u64 + 2) * 1000 } else { 60_000 };
+            steps = crate::c09::inject(steps, ctx, x, timeout_ms, t.table);
+            if steps.iter().any(|s| matches!(s, Step::Note(n) if n.starts_with("fault:") || n.starts_with("serial:"))) {
+                st.faulted = true;
+            }
+        }
         if x == Xch::P3 && st.eod_chosen == Some(Eod::StatusCompletion) {
             // status information ahead of the final completion
             let r = Replies { table: t.table };
@@ -153,6 +165,8 @@ impl Policy for HistPolicy {
 pub struct HistOut {
     pub c07: Vec<String>,
     pub c19: Vec<String>,
+    /// problems on the connection log (C09's oracle), only filled in when faults are explored
+    pub c09: Vec<String>,
     pub trace: Vec<String>,
     /// canonical state reached at the end (client map, connection flag, terminal ledger, dangling)
     pub final_state: u64,
@@ -162,8 +176,8 @@ pub struct HistOut {
 pub fn history(ctx: &mut Ctx, p: &HistParams, first: Option<usize>, acc: &mut Acc) -> HistOut {
     let table: &'static Table = vcore::layout::shipped_static();
     let sh: Sh = Rc::new(RefCell::new(std::mem::replace(ctx, Ctx::new(vec![], vec![], 0))));
-    let st = Rc::new(RefCell::new(PolSt { op: Op::Configure, tracker: Tracker::new(), chosen: vec![], eod_chosen: None, reported: None, lazy: false, p: p.clone(), declined_after_status: 0 }));
-    let mut out = HistOut { c07: vec![], c19: vec![], trace: vec![], final_state: 0 };
+    let st = Rc::new(RefCell::new(PolSt { op: Op::Configure, tracker: Tracker::new(), chosen: vec![], eod_chosen: None, reported: None, lazy: false, p: p.clone(), declined_after_status: 0, faulted: false }));
+    let mut out = HistOut { c07: vec![], c19: vec![], c09: vec![], trace: vec![], final_state: 0 };
     {
         let sim = Sim::new(sh.clone(), Box::new(HistPolicy { st: st.clone() }));
         let mut cfg = base_config();
@@ -178,6 +192,8 @@ pub fn history(ctx: &mut Ctx, p: &HistParams, first: Option<usize>, acc: &mut Ac
                 sim.w.borrow_mut().t.dangling = p.dangling;
                 let mut model = Model { open: Default::default(), max: p.max };
                 let mut closed_once: Vec<String> = vec![];
+                let mut any_fault = false;
+                let mut held: Vec<String> = vec![];
                 for step in 0..p.depth {
                     let oi = match (step, first) {
                         (0, Some(f)) => f,
@@ -191,6 +207,7 @@ pub fn history(ctx: &mut Ctx, p: &HistParams, first: Option<usize>, acc: &mut Ac
                         s.chosen.clear();
                         s.eod_chosen = None;
                         s.reported = None;
+                        s.faulted = false;
                     }
                     let (r0, e0) = sim.w.borrow().t.traffic_marker();
                     let res = run_op(&sim, &mut feig, &op);
@@ -276,6 +293,92 @@ pub fn history(ctx: &mut Ctx, p: &HistParams, first: Option<usize>, acc: &mut Ac
                         }
                         (c19, wit)
                     };
+                    let faulted_now = st.borrow().faulted;
+                    if faulted_now {
+                        any_fault = true;
+                        acc.count("w_faulted_calls", 1);
+                    }
+                    if p.faults {
+                        crate::c09::held_after_fault(&w.t, &op.label(), &mut held);
+                    }
+                    if faulted_now {
+                        // A transport fault hit this call: the sequence layer re-sends the command on a fresh
+                        // connection, so requests may repeat and the call may still succeed. What the
+                        // statement fixes regardless: a call the rules refuse causes no traffic (so it cannot
+                        // be hit), every (re-)sent request names exactly this token's receipt number, the
+                        // token of a commit / cancel is closed, a begin records nothing but a receipt the
+                        // terminal issued for it during this call, other tokens are untouched, and
+                        // end-of-day is never requested while others are open.
+                        let snap_now: Vec<(String, u64)> = feig.verif_snapshot().0.into_iter().map(|(k, v)| (k, v as u64)).collect();
+                        match &op {
+                            Op::Begin(t) => {
+                                if model.open.len() >= model.max || model.open.contains_key(t) {
+                                    bad07("a call the rules refuse caused traffic".into());
+                                } else {
+                                    for q in new.iter() {
+                                        let diff = named_fields_differ(table, "Reservation", Some(q), &want_reservation(&cfg, t));
+                                        if q.key != "Reservation" || !diff.is_empty() {
+                                            bad07(format!("every (re-)sent request of a begin must be the Reservation for the configured amount and currency with the token as reference: {} {}", q.key, diff.join("; ")));
+                                        }
+                                    }
+                                    let issued: Vec<u64> = chosen.iter().filter_map(|(_, _, i)| i.map(|r| r as u64)).collect();
+                                    match snap_now.iter().find(|(k, _)| k == t) {
+                                        None => {
+                                            if res.is_ok() {
+                                                bad07("begin reported success but recorded nothing".into());
+                                            }
+                                        }
+                                        Some((_, r)) if issued.contains(r) => {
+                                            if !res.is_ok() {
+                                                bad07(format!("begin failed ({}) but left the token open", res.short()));
+                                            }
+                                            model.open.insert(t.clone(), *r);
+                                            acc.count("w_begin_survived_fault", 1);
+                                        }
+                                        Some((_, r)) => bad07(format!("begin recorded receipt {r}, which the terminal did not issue for this reservation (issued: {issued:?})")),
+                                    }
+                                }
+                                if new.iter().any(|r| r.key == "EndOfDay") {
+                                    c19.push("begin must not request end-of-day".into());
+                                }
+                            }
+                            Op::Commit(t, _) | Op::Cancel(t) => {
+                                if !model.open.contains_key(t) {
+                                    bad07("a call the rules refuse caused traffic".into());
+                                } else {
+                                    let r = model.open.remove(t).unwrap();
+                                    closed_once.push(t.clone());
+                                    let (key, want) = match &op {
+                                        Op::Commit(_, a) => ("PartialReversal", want_partial_reversal(&cfg, t, r, *a)),
+                                        _ => ("PreAuthReversal", vec![("receipt_no", vcore::codec::Val::Int(r))]),
+                                    };
+                                    // the main request and each of its repetitions: up to the first request of the clean-up
+                                    let pending = |q: &ReqRec| q.key == "PartialReversal" && get_path(table, "PartialReversal", &q.val, "receipt_no") == Some(vcore::codec::Val::Int(0xffff));
+                                    let mains: Vec<&ReqRec> = new.iter().take_while(|q| !pending(q) && q.key != "EndOfDay").collect();
+                                    for q in &mains {
+                                        let diff = named_fields_differ(table, key, Some(q), &want);
+                                        if q.key != key || !diff.is_empty() {
+                                            bad07(format!("every (re-)sent request must act on exactly this token's receipt number: {} {}", q.key, diff.join("; ")));
+                                        }
+                                    }
+                                    if !mains.is_empty() {
+                                        acc.count("w_request_checked_under_fault", 1);
+                                    }
+                                    if mains.len() >= 2 {
+                                        acc.count("w_request_resent", 1);
+                                    }
+                                    if !model.open.is_empty() && new.iter().any(|q| q.key == "EndOfDay" || pending(q)) {
+                                        c19.push("other transactions are still open: no clean-up and no end-of-day".into());
+                                    }
+                                    let completed = matches!(chosen.iter().filter(|(x, _, _)| *x == Xch::Main).last(), Some((_, Outcome::Ok, _)));
+                                    if model.open.is_empty() && res.is_ok() && completed && !new.iter().any(|q| q.key == "EndOfDay") {
+                                        c19.push("the call succeeded and left nothing open, but end-of-day was never requested".into());
+                                    }
+                                }
+                            }
+                            Op::ReadCard | Op::Configure => {}
+                        }
+                    } else {
                     match &op {
                         Op::Begin(t) => {
                             if model.open.len() >= model.max || model.open.contains_key(t) {
@@ -406,6 +509,7 @@ pub fn history(ctx: &mut Ctx, p: &HistParams, first: Option<usize>, acc: &mut Ac
                         }
                         Op::Configure => {}
                     }
+                    }
                     drop(w);
                     for s in c19 {
                         out.c19.push(format!("step {step} {}: {s}", op.label()));
@@ -416,7 +520,7 @@ pub fn history(ctx: &mut Ctx, p: &HistParams, first: Option<usize>, acc: &mut Ac
                     if snap != want {
                         out.c07.push(format!("step {step} {}: the client's open transactions {snap:?} differ from the model's {want:?}", op.label()));
                     }
-                    if sim.w.borrow().t.conns.len() != 1 {
+                    if !any_fault && sim.w.borrow().t.conns.len() != 1 {
                         out.c07.push(format!("step {step} {}: the client reconnected although no exchange failed", op.label()));
                     }
                     out.final_state = h64(&(p.max, &snap, feig.verif_snapshot().1, &sim.w.borrow().t.ledger, sim.w.borrow().t.dangling));
@@ -426,6 +530,13 @@ pub fn history(ctx: &mut Ctx, p: &HistParams, first: Option<usize>, acc: &mut Ac
                     }
                 }
                 drop(feig);
+                if p.faults {
+                    out.c09 = crate::c09::verify(&sim.w.borrow().t, &cfg);
+                    out.c09.extend(held);
+                    if any_fault {
+                        acc.count("w_history_with_fault", 1);
+                    }
+                }
             }
         }
         drop(sim);
